@@ -121,9 +121,11 @@ Theorem first_last_position : forall rnd L s, lsets L <> [] ->
 Proof. exact first_last_spec. Qed.
 Print Assumptions first_last_position.
 
-(** extracting a history changes nothing that can be observed and raises nothing *)
+(** extracting a history changes nothing that can be observed and raises nothing; a history() call in
+    which no specification matches (absent table kind, unknown row) changes nothing at all *)
 Theorem history_changes_nothing : forall rnd L s,
-  observe (fst (step rnd L s History)) = observe s /\ snd (step rnd L s History) = ONone.
+  observe (fst (step rnd L s History)) = observe s /\ snd (step rnd L s History) = ONone /\
+  step rnd L s HistoryNone = (s, ONone).
 Proof. exact history_keeps_state. Qed.
 Print Assumptions history_changes_nothing.
 
